@@ -25,6 +25,7 @@ type cenv struct {
 	resNm  []string
 	allocOld Term
 	err    error
+	iter   Term // visited-set of the enclosing map range loop
 }
 
 func (ce *cenv) fail(f string, a ...interface{}) cval {
@@ -169,7 +170,7 @@ func (ce *cenv) eval(x *CExpr) cval {
 		hi := ce.eval(x.Args[2])
 		if base.typ != nil {
 			if b, ok := base.typ.Underlying().(*types.Basic); ok && b.Info()&types.IsString != 0 {
-				return cval{t: sx("substr", base.t, lo.t, hi.t), typ: base.typ}
+				return cval{t: sx("ssub", base.t, lo.t, hi.t), typ: base.typ}
 			}
 		}
 		return ce.fail("slicing of non-string in contracts")
@@ -363,7 +364,7 @@ func (ce *cenv) binop(x *CExpr) cval {
 	case "+":
 		if a.typ != nil {
 			if bt, ok := a.typ.Underlying().(*types.Basic); ok && bt.Info()&types.IsString != 0 {
-				return cval{t: sx("concat", a.t, b.t), typ: a.typ}
+				return cval{t: sx("sconcat", a.t, b.t), typ: a.typ}
 			}
 		}
 		return cval{t: Add(a.t, b.t), typ: a.typ}
@@ -476,8 +477,12 @@ func (ce *cenv) call(x *CExpr) cval {
 		}
 		return cval{t: vc.unbox(sx("i_val", a.t), ty), typ: ty}
 	case "visited":
-		// visited(m, k): key k of the map ranged over has been visited by the enclosing range loop
-		return ce.fail("visited() only inside loop invariants")
+		// visited(k): key k of the map ranged over has been visited by the enclosing range loop
+		if ce.iter == "" {
+			return ce.fail("visited() only inside invariants of map range loops")
+		}
+		k := ev(0)
+		return cval{t: Sel(ce.iter, k.t), typ: boolT}
 	}
 	if sf, ok := vc.e.cs.Specs[fn.Name]; ok {
 		var as []Term
